@@ -1,11 +1,1 @@
 // ===== router-side ASSUMED contracts: storage item, cross-contract queries =====
-// factory registry and pair quotes as seen through smart queries: uninterpreted functions of the chain state
-pub uninterp spec fn pair_of(w: World, factory: Seq<char>, a: AssetInfo, b: AssetInfo) -> Seq<char>;
-pub uninterp spec fn sim_return(w: World, pair: Seq<char>, offer: Asset) -> Uint128;
-pub uninterp spec fn rev_offer(w: World, pair: Seq<char>, ask: Asset) -> Uint128;
-#[verifier::external_body] pub fn query_pair_info(querier: &QuerierWrapper, factory_contract: Addr, asset_infos: &[AssetInfo; 2]) -> (r: StdResult<PairInfo>)
-    ensures r is Ok ==> r->Ok_0.contract_addr@ == pair_of(querier.world(), factory_contract.0@, asset_infos[0], asset_infos[1]) { unimplemented!() }
-#[verifier::external_body] pub fn simulate(querier: &QuerierWrapper, pair_contract: Addr, offer_asset: &Asset) -> (r: StdResult<SimulationResponse>)
-    ensures r is Ok ==> r->Ok_0.return_amount == sim_return(querier.world(), pair_contract.0@, *offer_asset) { unimplemented!() }
-#[verifier::external_body] pub fn reverse_simulate(querier: &QuerierWrapper, pair_contract: Addr, ask_asset: &Asset) -> (r: StdResult<ReverseSimulationResponse>)
-    ensures r is Ok ==> r->Ok_0.offer_amount == rev_offer(querier.world(), pair_contract.0@, *ask_asset) { unimplemented!() }
